@@ -111,6 +111,17 @@ SYS_QUICK = [
     dict(name='pressure+level', H=3600, dur=3600, qset=[0.02, -0.02], tank_link='pipe_in',
          controls=[dict(rel='gt', value=0, attr='pressure', source='J1'), dict(rel='lt', value=1, attr='level', priority=5)]),
 ]
+SYS_QUICK += [
+    # a low-priority control on a valve SETTING (which implies re-opening the valve) against a default-priority CLOSE on the same valve
+    dict(name='valve-setting-vs-close', concrete_tank=True, valve_target=True, H=3600, dur=3600, qset=[0.03], tank_link='pipe_in',
+         controls=[dict(rel='gt', value=25.0, attr='level', target='V3', what='setting', priority=1), dict(rel='gt', value=0, attr='level', target='V3', priority=3)]),
+    # the junction that drives a pressure control is cut off by a time control: its reported pressure is 0, the control must act on that
+    dict(name='isolated-pressure', concrete_tank=True, bypass=True, time_control=True, H=3600, dur=3600, qset=[0.0], tank_link='pipe_in',
+         controls=[dict(rel='lt', value=1, attr='pressure', source='J2', target='P5')]),
+    # volume-curve tank with a non-zero elevation and a control on its LEVEL
+    dict(name='volcurve-level', concrete_tank=True, vol_curve=True, tank_elev=7.0, init=3.0, H=3600, dur=7200, qset=[0.03], tank_link='pipe_in',
+         controls=[dict(rel='gt', value=0, attr='level')]),
+]
 SYS_THOROUGH = SYS_QUICK + [
     dict(name='hysteresis-1step', concrete_tank=True, H=3600, dur=3600, qset=[0.03], tank_link='pipe_in',
          controls=[dict(rel='lt', value=1, attr='level'), dict(rel='gt', value=0, attr='level')], p3_closed=True),
@@ -133,7 +144,8 @@ def build(V, cfg):
             thr = V.real('pthr%d' % len(allc), 0, 25)
             cond = C.ValueCondition(wn.get_node(spec['source']), 'pressure', C.Comparison[spec['rel']], 0.0)
             cond._threshold = thr
-            ctl = C.Control(cond, C.ControlAction(p3, 'status', LinkStatus(spec['value'])), priority=C.ControlPriority(spec.get('priority', 3)))
+            tgt = wn.get_link(spec.get('target', 'P3'))
+            ctl = C.Control(cond, C.ControlAction(tgt, 'status', LinkStatus(spec['value'])), priority=C.ControlPriority(spec.get('priority', 3)))
             wn.add_control('p%d' % len(allc), ctl)
             allc.append(dict(spec, thr=thr))
     x['controls'] = allc
@@ -165,9 +177,12 @@ def check_system(rep, cfg):
                 break
             V, x, res = path.value
             times, lv, dm = tankkit.tank_series(res)
-            st = ctrlplane.series(res, 'link', 'status', 'P3')
-            hd = {nn: ctrlplane.series(res, 'node', 'head', nn) for nn in ('T', 'J1')}
-            pr = {nn: ctrlplane.series(res, 'node', 'pressure', nn) for nn in ('T', 'J1')}
+            targets = sorted({c_.get('target', 'P3') for c_ in x['controls']})
+            stt = {t_: ctrlplane.series(res, 'link', 'status', t_) for t_ in targets}
+            sett = {t_: ctrlplane.series(res, 'link', 'setting', t_) for t_ in targets}
+            st = stt.get('P3', stt[targets[0]])
+            hd = {nn: ctrlplane.series(res, 'node', 'head', nn) for nn in ('T', 'J1', 'J2')}
+            pr = {nn: ctrlplane.series(res, 'node', 'pressure', nn) for nn in ('T', 'J1', 'J2')}
             T = [real(t) for t in times]
             wit = lambda mdl, V=V: V.witness(mdl, cfg=cfg)
 
@@ -182,18 +197,23 @@ def check_system(rep, cfg):
                     va, ta = value(ca, k), real(ca['thr'])
                     holds = va > ta if up else va < ta
                     excuses = []
+                    tg = ca.get('target', 'P3')
                     for b, cb in enumerate(x['controls']):
-                        if b == a or cb['value'] == ca['value'] or cb.get('priority', 3) < ca.get('priority', 3):
+                        if b == a or cb.get('target', 'P3') != tg or (cb['value'] == ca['value'] and cb.get('what', 'status') == ca.get('what', 'status')) or cb.get('priority', 3) < ca.get('priority', 3):
                             continue
                         upb = cb['rel'] in ('gt', 'ge')
                         vb, tb = value(cb, k), real(cb['thr'])
                         excuses.append(vb >= tb if upb else vb <= tb)
-                    cons_claims.append(z3.Implies(holds, z3.Or(z3.BoolVal(int(st[k]) == int(ca['value'])), *excuses)))
+                    if ca.get('what', 'status') == 'setting':
+                        ok_now = real(sett[tg][k]) == real(ca['value'])
+                    else:
+                        ok_now = z3.BoolVal(int(stt[tg][k]) == int(ca['value']))
+                    cons_claims.append(z3.Implies(holds, z3.Or(ok_now, *excuses)))
                     if k > 0 and ca.get('source', 'T') == 'T':
                         vprev = value(ca, k - 1)
                         # the control acted in this step (P3 changed to the commanded status): it must have done so at the crossing
-                        newly = z3.And(holds, z3.Not(vprev >= ta if up else vprev <= ta), z3.BoolVal(int(st[k]) == int(ca['value']) and int(st[k - 1]) != int(ca['value'])))
-                        over.append(z3.Implies(newly, zabs(va - ta) <= 2 * zabs(real(dm[k - 1])) / rv(A) + rv(1e-9)))
+                        newly = z3.And(holds, z3.Not(vprev >= ta if up else vprev <= ta), z3.BoolVal(ca.get('what', 'status') == 'status' and int(stt[tg][k]) == int(ca['value']) and int(stt[tg][k - 1]) != int(ca['value'])))
+                        over.append(z3.Implies(newly, zabs(va - ta) <= 2 * zabs(real(dm[k - 1])) / rv(25.0 if cfg.get('vol_curve') else A) + rv(1e-9)))
             claims = [('consistent', z3.And(*cons_claims))]
             if over:
                 claims.append(('threshold-met-by-partial-step', z3.And(*over)))
